@@ -9,7 +9,7 @@ import numpy as np
 from . import core, curves, seams
 from .core import fhex, digest_array, make_violation
 from .engine_curve import (COMPONENTS, MODELS, POC_METHODS, _caught,
-                           merge_shared,
+                           merge_shared, gen_invalid_request,
                            enc_params, gen_options, gen_pipeline)
 from .seams import PLAN
 
@@ -25,7 +25,8 @@ POOL = {
     "optimal_fit_edelta": [False, True],
     "optimal_fit_num_samples": [5, 10, 100, 101, 7],
     "range_type": ["absolute", "relative cp"],
-    "range_x": [[0, 0], [-1e-6, 5e-7], [-2e-6, 5e-7], [-1e-6, 1e-6],
+    "range_x": [[0, 0], [1e-6, 1e-6], [2e-6, 2e-6], [-5e-7, -5e-7],
+                [0, 2e-6], [-1e-6, 5e-7], [-2e-6, 5e-7], [-1e-6, 1e-6],
                 [1.0, 23.0], [1.02, 3.0], [12.0, 3.0], [1.0, 2.0],
                 [1.0, 2.01], [-1e-6, 0], [0, 5e-7], [1.5, 25.0],
                 [1.52, 5.0]],
@@ -166,6 +167,21 @@ def with_repr(v, variant):
             return [with_repr(x, "np") for x in v]
     if variant == "revdict" and isinstance(v, dict):
         return {k: with_repr(v[k], "revdict") for k in reversed(list(v))}
+    if variant in ("dictnum", "dictnp") and isinstance(v, dict):
+        # numbers inside an options dictionary in their other guise
+        def other(x):
+            if isinstance(x, dict):
+                return {k: other(y) for k, y in x.items()}
+            if isinstance(x, bool):
+                return x
+            if isinstance(x, int):
+                return float(x) if variant == "dictnum" else np.int64(x)
+            if isinstance(x, float):
+                if variant == "dictnp":
+                    return np.float64(x)
+                return int(x) if x == int(x) and abs(x) < 1e9 else x
+            return copy.deepcopy(x)
+        return other(v)
     if variant == "segname" and v in (0, 1) and not isinstance(v, bool):
         return ["approach", "retract"][v]
     if variant == "listfloat" and isinstance(v, list):
@@ -186,7 +202,7 @@ REPRS_FOR = {
     "gcf_k": [None, "float", "int", "np"],
     "optimal_fit_num_samples": [None, "np"],
     "optimal_fit_edelta": [None, "np", "int"],
-    "method_kws": [None, "revdict"],
+    "method_kws": [None, "revdict", "dictnum", "dictnp"],
     "preprocessing_options": [None, "revdict"],
 }
 
@@ -356,6 +372,12 @@ class HashWalkEngine:
                                                "height (measured)"]),
                             "index": rng.randrange(10000),
                             "ulps": rng.choice([1, -1, 2])})
+            elif k == "pipeline" and rng.random() < 0.2:
+                # a request that is rejected (the curve is back to its raw
+                # data afterwards and remembers no pipeline)
+                st_, o_ = gen_invalid_request(rng)
+                ops.append({"op": "pipeline", "steps": st_,
+                            "options": o_ or {}})
             elif k == "pipeline":
                 steps = gen_pipeline(rng, full_bias=0.6)
                 if "compute_tip_position" not in steps:
@@ -387,6 +409,15 @@ class HashWalkEngine:
                     name, attr, vals = rng.choice(PARAM_EDITS)
                     ops.append({"op": "param", "name": name, "attr": attr,
                                 "value": rng.choice(vals)})
+        if rng.random() < 0.15:
+            # plateau search with equal range bounds (the upper bound is
+            # what counts there)
+            ops.append({"op": "set", "key": "optimal_fit_edelta",
+                        "value": True, "repr": None, "route": "setitem"})
+            for rx in rng.sample([[1e-6, 1e-6], [2e-6, 2e-6], [0, 0],
+                                  [0, 2e-6], [-5e-7, -5e-7]], 3):
+                ops.append({"op": "set", "key": "range_x", "value": rx,
+                            "repr": None, "route": "setitem"})
         for o in ops:
             if o["op"] in ("init", "set", "pipeline", "model", "perturb") \
                     and rng.random() < (0.4 if o["op"] == "init" else 0.1):
